@@ -95,7 +95,7 @@ def cases(tier, seed):
                 pl = prio_lists[idx % len(prio_lists)]
                 out.append({"k": k, "rgs": rgs, "prio": pl, "pat": pat[0], "pat_args": pat[1], "n": n, "tied": False,
                             "inherit": None, "real": idx % 6 == 0, "op": OPS4[(idx // 6 + idx) % 4]})
-        for inh in ("isolate", "match_links", "rf2", "transform", "isolate_dot", "isolate_H", "isolate_cli_H", "isolate_cli_rel", "isolate_other_cwd", "isolate_basedir"):
+        for inh in ("isolate", "match_links", "rf2", "transform", "isolate_dot", "isolate_H", "isolate_cli_H", "isolate_cli_rel", "isolate_other_cwd", "isolate_basedir", "isolate_hash_arg", "rf2_hash_arg"):
             for pl in ([], ["top"], ["most-nested"], ["bottom", "least-nested"]):
                 idx += 1
                 out.append({"k": k, "rgs": rgs, "prio": pl, "pat": "none", "pat_args": [], "n": None, "tied": False,
@@ -323,6 +323,14 @@ def evaluate(case):
             if inh == "isolate_dot":
                 roots = ["./r1", "r1x/../r1x"]
             opts["isolate_roots"] = [sc.path("r1").decode(), sc.path("r1x").decode()]
+        elif inh == "isolate_hash_arg":
+            # an argument that starts with '#' (a comment character of the command-line syntax the header uses)
+            # stands before the settings the dedupe command inherits
+            gargs += ["--exclude", "#tmp", "--isolate"]
+            opts["isolate_roots"] = [sc.path("r1").decode(), sc.path("r1x").decode()]
+        elif inh == "rf2_hash_arg":
+            gargs += ["--exclude", "#tmp", "--exclude", "a=b+c%d", "--rf-over", "2"]
+            opts["n"] = 2
         elif inh == "match_links":
             gargs.append("-H")
             opts["match_links"] = True
